@@ -119,10 +119,11 @@ def opsIter32 : Handler := fun st toks =>
     item k sl.m.nextBack (Spec.Cursor.nextBack sl.s)
   | ["nth", a, n] => do
     let (k, sl) ← i? a; let n ← parseU64 n
-    item k (sl.m.nth n) (Spec.Cursor.nth sl.s n)
+    (item k (sl.m.nth n) (Spec.Cursor.nth sl.s n)).map fun r => (r.1, r.2 ++ safeMark "nth" (decide (Iter.Safe_nth sl.m n)))
   | ["nth_back", a, n] => do
     let (k, sl) ← i? a; let n ← parseU64 n
-    item k (sl.m.nthBack n) (Spec.Cursor.nthBack sl.s n)
+    (item k (sl.m.nthBack n) (Spec.Cursor.nthBack sl.s n)).map fun r =>
+      (r.1, r.2 ++ safeMark "nth_back" (decide (Iter.Safe_nthBack sl.m n)))
   | ["advance_to", a, v] => do
     let (k, sl) ← i? a; let v ← parseU32 v
     pure (st.setI k (some ⟨sl.m.advanceTo v, Spec.Cursor.advanceTo sl.s v⟩), "ok | " ++ tagAdvance true sl.m v)
@@ -131,15 +132,18 @@ def opsIter32 : Handler := fun st toks =>
     pure (st.setI k (some ⟨sl.m.advanceBackTo v, Spec.Cursor.advanceBackTo sl.s v⟩), "ok | " ++ tagAdvance false sl.m v)
   | ["size_hint", a] => do
     let (_, sl) ← i? a
-    pure (st, specMark (showSizeHint sl.m.sizeHint) (showSizeHint (Spec.Cursor.sizeHint sl.s)))
+    pure (st, specMark (showSizeHint sl.m.sizeHint) (showSizeHint (Spec.Cursor.sizeHint sl.s))
+      ++ safeMark "size_hint" (decide (Iter.Safe_sizeHint sl.m)))
   | ["ilen", a] => do
     let (_, sl) ← i? a
+    let safe := safeMark "ilen" (decide (Iter.Safe_sizeHint sl.m))
     match sl.m.len? with
-    | some n => pure (st, specMark (toString n) (toString sl.s.length))
-    | none => pure (st, specMark "panic" (toString sl.s.length))
+    | some n => pure (st, specMark (toString n) (toString sl.s.length) ++ safe)
+    | none => pure (st, specMark "panic" (toString sl.s.length) ++ safe)
   | ["count", a] => do
     let (k, sl) ← i? a
-    pure (st.setI k none, specMark (toString sl.m.count) (toString (Spec.Cursor.count sl.s)))
+    pure (st.setI k none, specMark (toString sl.m.count) (toString (Spec.Cursor.count sl.s))
+      ++ safeMark "count" (decide (Iter.Safe_count sl.m)))
   | ["fold", a] => do
     let (k, sl) ← i? a
     pure (st.setI k none, specMark (showH (sl.m.fold hInit hStep)) (showH (Spec.Cursor.fold sl.s hInit hStep)))
